@@ -92,6 +92,11 @@ func inScope(sqlText, hdr string) bool {
 		}
 	}
 	l := strings.ToLower(sqlText)
+	// a quoted identifier NAMED like an identifier placeholder: ioDenylistNormalise substitutes names in map
+	// order, which is only deterministic when no name is itself a placeholder
+	if strings.Contains(l, "\"__ident_") || strings.Contains(l, "`__ident_") {
+		return false
+	}
 	for _, w := range scopeBad {
 		if strings.Contains(l, w) {
 			return false
